@@ -962,3 +962,175 @@ def r8_partial_io_counts(facts, rep):
     n += 1
     rep.ok("R8", "crate nomt", "partial-io-calls", detail="%d call(s) of partial I/O primitives (write / read / write_at / read_at / *_vectored) inspected; everything else uses write_all / read_exact / the I/O pool" % (n - 1))
     return n
+
+
+# ---- R9: the error convention of a libc call agrees with the test applied to its result -------------
+# Most syscall wrappers signal failure with -1 and errno; crate nomt funnels them through `cvt_r`, which tests `== -1`.
+# The posix_* / pthread_* families instead RETURN the error number and never -1: funnelled through the -1 test, every
+# failure of such a call (disk full or file-size limit while a store file is extended, ..) reads as success and the commit
+# goes on - the I/O failure is swallowed.  Rule: the result of a libc function that returns the error number is, by data flow
+# through closure returns / helper parameters, tested against 0 or handed to `io::Error::from_raw_os_error`; it is never
+# judged only by a comparison with -1, and never unused.
+ERRNO_RETURNING = (
+    "posix_fallocate", "posix_fallocate64", "posix_fadvise", "posix_fadvise64", "posix_madvise", "posix_memalign", "posix_spawn", "posix_spawnp",
+    "clock_nanosleep", "sigwait", "getlogin_r", "ttyname_r", "ptsname_r",
+)
+PTHREAD_NOT_ERRNO = ("pthread_self", "pthread_equal", "pthread_getspecific", "pthread_exit", "pthread_testcancel")
+MINUS_ONE = (-1, 0xFF, 0xFFFF, 0xFFFFFFFF, 0xFFFFFFFFFFFFFFFF)
+
+
+def returns_errno(callee):
+    if not callee.startswith("libc::"):
+        return False
+    m = callee.rsplit("::", 1)[-1]
+    return m in ERRNO_RETURNING or (m.startswith("pthread_") and m not in PTHREAD_NOT_ERRNO)
+
+
+def _const_of(op):
+    if op.get("k") == "const" and op.get("int") is not None:
+        try:
+            return int(op["int"])
+        except ValueError:
+            return None
+    return None
+
+
+def _closure_receivers(facts, closure_id):
+    """(caller body, call terminator, parameter index in the callee) for every call that is handed the closure"""
+    out = []
+    for body in facts.bodies.values():
+        if closure_id.rsplit("::{closure", 1)[0] not in body.id and body.id not in closure_id:
+            continue
+        made = set()
+        for b in range(body.n):
+            for s in body.stmts(b):
+                if s["k"] == "assign" and s["rv"]["k"] == "agg" and s["rv"].get("ak") == "closure" and s["rv"].get("name") == closure_id and not s["pl"].get("p"):
+                    made.add(s["pl"]["l"])
+        if not made:
+            continue
+        for b, t in body.calls():
+            for ai, a in enumerate(t["args"]):
+                if any(r.kind == "agg" and r.obj is not None and r.obj.get("name") == closure_id for r in trace(body, a)):
+                    out.append((body, t, ai + 1))
+    return out
+
+
+def judged(facts, body, local, depth=0, seen=None):
+    """how an integer result is judged downstream: subset of {zero, minus1, raw_os_error, other, escaped}"""
+    if seen is None:
+        seen = set()
+    tags = set()
+    if depth > 4 or (body.id, local) in seen:
+        return tags
+    seen.add((body.id, local))
+    ui = UseIndex(body)
+    work, done = [local], set()
+    while work:
+        l = work.pop()
+        if l in done:
+            continue
+        done.add(l)
+        if l == 0:
+            # the function's own result: follow it at the callers (or, for a closure, where the closure is invoked)
+            if body.kind == "Closure":
+                for (cb, ct, pi) in _closure_receivers(facts, body.id):
+                    callee = facts.bodies.get(ct.get("callee") or "")
+                    if callee is None:
+                        tags.add("escaped")
+                        continue
+                    for b2, t2 in callee.calls():
+                        c2 = t2.get("callee") or ""
+                        if c2.rsplit("::", 1)[-1] in ("call_mut", "call_once", "call") and t2["args"] and any(r.kind == "param" and r.what == pi for r in trace(callee, t2["args"][0])):
+                            d = t2.get("dest")
+                            if d is not None and not d.get("p"):
+                                tags |= judged(facts, callee, d["l"], depth + 1, seen)
+            else:
+                found = False
+                for ob in facts.bodies.values():
+                    if ob.crate != body.crate:
+                        continue
+                    for b2, t2 in ob.calls():
+                        if t2.get("callee") == body.id and not ob.is_cleanup(b2):
+                            d = t2.get("dest")
+                            if d is not None and not d.get("p"):
+                                found = True
+                                tags |= judged(facts, ob, d["l"], depth + 1, seen)
+                if not found:
+                    tags.add("escaped")
+            continue
+        for (kind, ub, ui_, pl, dest, obj) in ui.of(l):
+            if kind in ("drop", "discr"):
+                continue
+            if kind in ("assign", "ref"):
+                if dest is not None and not dest.get("p"):
+                    work.append(dest["l"])
+                elif dest is not None:
+                    tags.add("other")  # stored somewhere
+                continue
+            if kind == "agg":
+                tags.add("other")
+                continue
+            if kind == "binop":
+                rv = obj["rv"]
+                if rv["k"] == "bin" and rv.get("op") in ("Eq", "Ne", "Lt", "Le", "Gt", "Ge"):
+                    cs = [_const_of(rv["a"]), _const_of(rv["b"])]
+                    cs = [c for c in cs if c is not None]
+                    if 0 in cs:
+                        tags.add("zero")
+                    elif any(c in MINUS_ONE for c in cs):
+                        tags.add("minus1")
+                    else:
+                        tags.add("other")
+                elif dest is not None and not dest.get("p"):
+                    work.append(dest["l"])
+                continue
+            if kind == "switch":
+                vals = [str(v) for (v, _tb) in obj.get("vals", [])]
+                if "0" in vals:
+                    tags.add("zero")
+                elif any(v in ("-1", "4294967295", "18446744073709551615") for v in vals):
+                    tags.add("minus1")
+                else:
+                    tags.add("other")
+                continue
+            if kind == "arg":
+                cc = obj.get("callee") or ""
+                if cc.endswith("from_raw_os_error"):
+                    tags.add("raw_os_error")
+                elif cc in facts.bodies and facts.bodies[cc].crate == body.crate and ui_ >= 0:
+                    tags |= judged(facts, facts.bodies[cc], ui_ + 1, depth + 1, seen)
+                elif cc.rsplit("::", 1)[-1] in ("is_minus_one",):
+                    tags.add("minus1")
+                elif cc.startswith(("core::", "std::", "alloc::")) and obj.get("dest") is not None and not obj["dest"].get("p") and cc.rsplit("::", 1)[-1] in ("from", "into", "clone", "try_from", "try_into", "unwrap", "abs", "unsigned_abs", "black_box", "branch"):
+                    work.append(obj["dest"]["l"])
+                else:
+                    tags.add("other")
+                continue
+    return tags
+
+
+def r9_errno_convention(facts, rep):
+    n = 0
+    for body in facts.bodies.values():
+        if body.crate != "nomt" or "::tests::" in body.id or body.derived:
+            continue
+        for b, t in body.calls():
+            c = t.get("callee") or ""
+            if body.is_cleanup(b) or not returns_errno(c):
+                continue
+            n += 1
+            m = c.rsplit("::", 1)[-1]
+            d = t.get("dest")
+            tags = judged(facts, body, d["l"]) if d is not None and not d.get("p") else {"other"}
+            short = body.id.split("::", 1)[1]
+            good = bool(tags & {"zero", "raw_os_error"})
+            if good:
+                rep.ok("R9", short, "errno-returning|%s" % m, detail="the result of %s at %s is %s" % (m, t.get("ln"), " / ".join(sorted(tags))))
+            elif tags & {"escaped", "other"} and "minus1" not in tags:
+                rep.notes.append("R9: the result of %s at %s leaves the analysed flow (%s); not decided" % (m, t.get("ln"), ", ".join(sorted(tags))))
+            else:
+                why = "is judged only by a comparison with -1 (the cvt / cvt_r convention)" if "minus1" in tags else "is never tested"
+                rep.violation("R9", short, "errno-returning|%s" % m, "`%s` at %s returns the error NUMBER (never -1), but its result %s: every failure of the call reads as success - an I/O failure is swallowed and the commit goes on" % (m, t.get("ln"), why), site=t.get("ln"))
+    n += 1
+    rep.ok("R9", "crate nomt", "errno-returning-libc-calls", detail="%d call(s) of libc functions that return the error number (posix_*, pthread_*) inspected" % (n - 1))
+    return n
